@@ -27,7 +27,8 @@ SIDES = ("Bid", "Ask")
 
 
 KINDS = ("limit", "market")
-# tuple layout: 0 status, 1 inmap, 2 side, 3 pend, 4 status at acquisition, 5 kind
+# tuple layout: 0 status, 1 inmap, 2 side, 3 pend, 4 status at acquisition, 5 kind,
+#               6 end_time written during this API call (None / "clock" / "other"), 7 arr_time written (same values)
 
 
 def top_I():
@@ -38,13 +39,13 @@ def top_I():
             for kind in KINDS:
                 if st == "Active" and kind == "market":
                     continue
-                s.add((st, st == "Active", side, None, st, kind))
+                s.add((st, st == "Active", side, None, st, kind, None, None))
     return frozenset(s)
 
 
 def fresh_unfiled():
     """loader view: any stored order satisfying the status part of I, nothing filed yet"""
-    return frozenset((st, False, side, None, st, kind) for st in STATUSES for side in SIDES for kind in KINDS
+    return frozenset((st, False, side, None, st, kind, None, None) for st in STATUSES for side in SIDES for kind in KINDS
                      if not (st == "Active" and kind == "market"))
 
 
@@ -125,6 +126,8 @@ class TypeState:
         self.contexts = 0
         self.stack = []
         self.consts_stack = []
+        self.is_clock = lambda q, e: False    # set by the rule: is expression e the book clock (or a parameter always given it)
+        self.time_writes = set()              # (fn path, block, stmt) of every end_time / arr_time write visited
 
     # ------------------------------------------------------------------ reporting
     def viol(self, rule, key, where, what):
@@ -148,7 +151,7 @@ class TypeState:
                 elif "AskSide" in x[1]:
                     side = "Ask"
                 if side:
-                    return frozenset({("Active", True, side, None, "Active", "limit")})
+                    return frozenset({("Active", True, side, None, "Active", "limit", None, None)})
                 self.viol("typestate-anchor", "best-side|" + q.fn.short(), q.loc(), "cannot resolve the side of best_order_idx in " + render(key))
                 return top_I()
         if mode == "loader":
@@ -259,6 +262,8 @@ class TypeState:
             is_param = root[0] == "param"
             if not is_param:
                 for tpl in v:
+                    if self.stack and len(self.stack) > 1:
+                        self.check_times(q, k, tpl, q.loc())   # (API roots: judged by the rule on the root's exit states)
                     if not consistent(tpl):
                         self.viol("exit-invariant", "%s|%s|%s" % (fn.short(), render(k), tpl[0]), q.loc(),
                                   "entity %s leaves %s as (status=%s, in priority map=%s, unmirrored volume=%s): invariant I broken" % (
@@ -393,7 +398,7 @@ class TypeState:
                 self.viol("state-machine", "%s|%s<-%s" % (q.fn.short(), new, ",".join(sorted(bad))), where,
                           "status of %s set to %s where it may be %s (allowed predecessors: %s)" % (
                               render(k), new, "/".join(sorted(bad)), "/".join(sorted(PRED.get(new, set()))) or "none"))
-            self.put(st, k, frozenset((new, t[1], t[2], t[3], t[4], t[5]) for t in cur))
+            self.put(st, k, frozenset((new, t[1], t[2], t[3], t[4], t[5]) + t[6:] for t in cur))
         elif f == "vol" and owner == "Order":
             k = a[1]
             cur = self.get(q, st, k, mode)
@@ -410,7 +415,7 @@ class TypeState:
                         if t[3] is not None:
                             self.viol("accounting", "double-dec|" + q.fn.short(), where,
                                       "volume of filed order %s decreased again before the previous decrease (%s) was mirrored in the side aggregates" % (render(k), render(t[3])))
-                        nv.add((t[0], t[1], t[2], dec, t[4], t[5]))
+                        nv.add((t[0], t[1], t[2], dec, t[4], t[5]) + t[6:])
                     else:
                         nv.add(t)
                 else:
@@ -421,6 +426,17 @@ class TypeState:
                         self.viol("accounting", "vol-overwrite|" + q.fn.short(), where,
                                   "volume of %s overwritten (%s) while it is filed in the priority map: aggregates go stale" % (render(k), w.text()))
                     nv.add(t)
+            self.put(st, k, frozenset(nv))
+        elif f in ("end_time", "arr_time") and owner == "Order":
+            k = a[1]
+            cur = self.get(q, st, k, mode)
+            kind = "clock" if self.is_clock(q, w.val) else "other"
+            self.time_writes.add((q.fn.path, w.b, w.i))
+            pos = 6 if f == "end_time" else 7
+            nv = set()
+            for t in cur:
+                v = kind if (t[pos] in (None, kind)) else "other"
+                nv.add(t[:pos] + (v,) + t[pos + 1:])
             self.put(st, k, frozenset(nv))
         elif f == "price" and owner == "Order":
             k = a[1]
@@ -456,12 +472,29 @@ class TypeState:
                     return n if n in SIDES else None
         return None
 
+    def check_times(self, q, k, t, where):
+        """an entity that leaves the analysis (internal entity at function exit / re-acquired table entry): lifecycle
+        time stamps must match what happened to it since it was acquired"""
+        became_terminal = t[0] in TERMINAL and t[4] not in TERMINAL
+        if became_terminal and t[6] != "clock":
+            self.viol("end-time", "%s|%s->%s" % (q.fn.short(), t[4], t[0]), where,
+                      "order %s becomes %s (from %s) in %s without its end_time being set from the book clock (%s)" % (
+                          render(k), t[0], t[4], q.fn.short(), "not written" if t[6] is None else "written from something else"))
+        if not became_terminal and t[6] is not None:
+            self.viol("end-time", "orphan|%s" % q.fn.short(), where, "end_time of %s written in %s although the order does not become terminal (%s -> %s)" % (render(k), q.fn.short(), t[4], t[0]))
+        placed = t[4] == "New" and t[0] != "New"
+        if placed and t[7] != "clock":
+            self.viol("arr-time", "%s|placed" % q.fn.short(), where, "order %s is placed in %s without arr_time := book clock" % (render(k), q.fn.short()))
+        if not placed and t[7] is not None:
+            self.viol("arr-time", "orphan|%s" % q.fn.short(), where, "arr_time of %s written in %s although the order is not being placed" % (render(k), q.fn.short()))
+
     def release_entities(self, q, c, st):
         """a call whose result is part of an entity's identity re-acquires the entity"""
         res = c.result
         for k in list(st.keys()):
             if any(x == res for x in walk(k)):
                 for t in st[k]:
+                    self.check_times(q, k, t, c.loc())
                     if not consistent(t):
                         self.viol("exit-invariant", "%s|%s|%s" % (q.fn.short(), render(k), t[0]), c.loc(),
                                   "entity %s is dropped as (status=%s, in priority map=%s, unmirrored volume=%s): invariant I broken" % (
@@ -511,7 +544,7 @@ class TypeState:
                     self.viol("insert", "side|%s|%s" % (q.fn.short(), side), where, "order %s (side %s) filed on the %s side" % (render(k), t[2], side))
                 if t[3] is not None:
                     self.viol("insert", "pend|" + q.fn.short(), where, "order %s filed with an unmirrored volume change" % render(k))
-                nv.add((t[0], True, t[2], None, t[4], t[5]))
+                nv.add((t[0], True, t[2], None, t[4], t[5]) + t[6:])
             self.put(st, k, frozenset(nv))
             return
         if is_side_op and name == "remove_order":
@@ -536,7 +569,7 @@ class TypeState:
                         self.viol("accounting", "remove-vol-pend|" + q.fn.short(), where, "remove_order volume argument is %s but the side still accounts for the pre-fill volume (%s + remaining)" % (render(vol_a), render(t[3])))
                     elif t[0] != "Filled":
                         self.viol("accounting", "remove-partial|" + q.fn.short(), where, "remove_order passes only the filled volume for an order that may still have remaining volume (status %s)" % t[0])
-                nv.add((t[0], False, t[2], None, t[4], t[5]))
+                nv.add((t[0], False, t[2], None, t[4], t[5]) + t[6:])
             self.put(st, k, frozenset(nv))
             return
         if is_side_op and name == "remove_vol":
@@ -557,7 +590,7 @@ class TypeState:
                     self.viol("accounting", "remove-vol-side|%s|%s" % (q.fn.short(), side), where, "remove_vol on the %s side for order %s of side %s" % (side, render(k), t[2]))
                 if t[3] is None or vol_a != t[3]:
                     self.viol("accounting", "remove-vol-delta|" + q.fn.short(), where, "remove_vol removes %s but the unmirrored decrease of %s is %s" % (render(vol_a), render(k), render(t[3]) if t[3] else "none"))
-                nv.add((t[0], t[1], t[2], None, t[4], t[5]))
+                nv.add((t[0], t[1], t[2], None, t[4], t[5]) + t[6:])
             self.put(st, k, frozenset(nv))
             return
         # re-acquisition of entities identified through this call's result
@@ -617,7 +650,7 @@ class TypeState:
                         pend = call_res
                     else:
                         pend = subst(pend, mapping)
-                nv.add((t[0], t[1], t[2], pend, t[4], t[5]))
+                nv.add((t[0], t[1], t[2], pend, t[4], t[5]) + t[6:])
             st[k] = frozenset(nv)
 
     def touches_entities(self, fn):
